@@ -1,7 +1,7 @@
 """C05 -- presentation changes do not change what is detected.  M: relational invariants on V2Tokenizer (Recase, Respace, Decorate, Typographic, BlankLine, TailLine).  G: tokenizer replay.  T: transformations of real documents, TraceV2 Pair."""
 import time
 from lib import vlib
-from checks.v2common import pad_leg, Acc, trace_leg, tok_model, tok_replay
+from checks.v2common import tables_leg, pad_leg, Acc, trace_leg, tok_model, tok_replay
 PID = "C05"
 def run():
     t0 = time.time(); v = vlib.Verdict(PID); acc = Acc(); th = vlib.TIER == "thorough"
@@ -10,6 +10,7 @@ def run():
     tok_model(acc, ["H"], 6 if th else 5)       # line numbers after hyphenated words (TailLine, BlankLine)
     tok_replay(v, acc, ["A", "B", "H"], 6 if th else 5)
     pad_leg(v, acc)                                       # the read buffer under the tokenizer: multi-byte text at every alignment
+    tables_leg(v, acc)                                    # list markers, interchangeable spellings, rewritten runes: the tables entry by entry
     recs, lines = trace_leg(v, acc, "c05", [PID])
     ps = [r for r in lines if r.get("ev") == "pair"]
     acc.nontrivial += len({(r["label"], r["kind"]) for r in ps})
